@@ -339,6 +339,27 @@ def run(chk):
                     init_ok = True
         if not init_ok:
             return False, "the walk does not start from the map's default (root) level", [], b.span
+        # ... and that level is what the walk *inherits*: every definition of the accumulator made before the loop that
+        # reaches the combining step is the root's level (not `None` patched up afterwards for some nodes only)
+        acc = b._op_local(o.args[1])
+        hops = 0
+        while acc is not None and hops < 6:
+            ds = [d for d in b.defs().get(acc, ()) if d[2] != "partial" and not b.blocks[d[0]]["cleanup"]]
+            if len(ds) == 1 and ds[0][2] == "assign" and ds[0][3]["k"] == "use" and b._op_local(ds[0][3]["op"]) is not None:
+                acc = b._op_local(ds[0][3]["op"])
+                hops += 1
+                continue
+            break
+        if acc is not None:
+            ds = [d for d in b.defs().get(acc, ()) if d[2] != "partial" and not b.blocks[d[0]]["cleanup"]]
+            entry = [d for d in ds if not b.in_cycle(d[0]) and o.bb in b.reachable_from(d[0])]
+            if len(ds) > 1 and not entry:
+                return False, "no value is inherited when the walk starts", [], o.loc
+            for d in entry:
+                io = b._origin_def(d, 0, ("as_ref",), frozenset())
+                if mir.o_field_path(io)[1] != ["root", "min_level"]:
+                    return False, ("the level inherited at the start of the walk is %s, not the map's default (root) level: a module "
+                                   "that reaches an intermediate node without a level of its own would escape the default" % o_str(io)), [], o.loc
         # a missing segment ends the walk: from the search's Err edge no further search is reachable
         for gbb, t in b.switches():
             so = b.switch_origin(gbb)
